@@ -949,3 +949,38 @@ Proof.
   rewrite (stringify_clean env t (st_of reps) Ht). rewrite (stringify_name_clean env r (st_of reps) Hr).
   reflexivity.
 Qed.
+
+(* ---------------------------------------------------------------- a family, end to end on the spec:
+   `x$...$@..*n` -- an element whose name is a literal followed by one numbering token -- unrolls to
+   n elements named x<counter of copy 1>, ..., x<counter of copy n>, for every n >= 1 *)
+Lemma tok_str_literal env reps t v : tk t = TLiteral v -> tok_str env reps t = v.
+Proof. intros Ht. unfold tok_str, stringify. rewrite Ht. reflexivity. Qed.
+
+Lemma map_flat_map_single {A B C} (f : A -> list B) (g : B -> C) (h : A -> C) l :
+  (forall x, map g (f x) = [h x]) -> map g (flat_map f l) = map h l.
+Proof.
+  intros H. induction l as [|x l IH]; [reflexivity|]. cbn [flat_map map]. rewrite map_app, H, IH. reflexivity.
+Qed.
+
+Theorem numbered_element_names env lit num v size reverse base n :
+  tk lit = TLiteral v -> tk num = TRepeaterNumber size reverse base 0 -> (1 <= n)%N ->
+  map an_name (unroll env [] (TElem (Some [lit; num]) None None (Some (mkRep n 0 false)) false [])) =
+  map (fun i => Some (v ++ pad (N.to_nat size) (str_of_Z (counter_value reverse base (i + 1) n))))
+      (nseq (N.to_nat n) 0%N).
+Proof.
+  intros Hl Hn Hpos. rewrite unroll_unfold. cbn [node_rep]. cbv zeta.
+  assert (Hw : written_count (mkRep n 0 false) = n).
+  { unfold written_count. cbn [rcount]. destruct (n =? 0)%N eqn:E; [apply N.eqb_eq in E; lia|reflexivity]. }
+  rewrite Hw. apply map_flat_map_single. intros i.
+  cbn [once_u flat_map]. unfold leaf_items. cbn [nonempty option_map text_only_of].
+  assert (Hc : clean_toks [lit; num] = true).
+  { unfold clean_toks, clean_tok. cbn [forallb]. rewrite Hl, Hn. reflexivity. }
+  rewrite (name_str_cons env _ lit [num] Hc).
+  assert (Hc2 : clean_toks [num] = true).
+  { unfold clean_toks, clean_tok. cbn [forallb]. rewrite Hn. reflexivity. }
+  rewrite (name_str_cons env _ num [] Hc2).
+  rewrite (tok_str_literal env _ lit v Hl), (numbering_in_copy env [] num size reverse base n i Hn).
+  assert (Hnil : forall reps, name_str env reps [] = []) by reflexivity.
+  rewrite Hnil, app_nil_r.
+  destruct (v ++ pad (N.to_nat size) (str_of_Z (counter_value reverse base (i + 1) n))); reflexivity.
+Qed.
